@@ -224,3 +224,19 @@ Definition obj_dialect (o : jobj) : option dialect :=
 Definition dumps_dialect (d : dialect) : list N := dumps (dialect_obj d).
 Definition loads_dialect (t : list N) : option dialect :=
   match loads t with Some o => obj_dialect o | None => None end.
+
+(* ---- the domain of the round-trip theorems ---- *)
+(* code points; no high surrogate directly followed by a low one (every sequence of Unicode scalar values qualifies) *)
+Definition cp (c : N) : Prop := c < 1114112.
+(* Unicode scalar values: what "any Unicode content" ranges over *)
+Definition scalar (c : N) : bool := (c <? 55296) || ((57344 <=? c) && (c <? 1114112)).
+Fixpoint no_pair (s : list N) : bool :=
+  match s with
+  | c :: r => match r with c2 :: _ => negb (is_hi c && is_lo c2) | [] => true end && no_pair r
+  | [] => true
+  end.
+Definition str_ok (s : list N) : Prop := Forall cp s /\ no_pair s = true.
+Definition attrs_ok (a : list (list N * list (list N))) : Prop :=
+  Forall (fun kv => str_ok (fst kv) /\ Forall str_ok (snd kv)) a.
+Definition dialect_ok (d : dialect) : Prop :=
+  str_ok (d_fsep d) /\ str_ok (d_kvsep d) /\ str_ok (d_mvsep d) /\ str_ok (d_fmt d) /\ Forall str_ok (d_order d).
